@@ -141,8 +141,8 @@ def impl_checks(ctx):
         if not dom.relclose(got, d, 1e-9):
             bad("db_o_dgor_Standing differs from d(b_o_bubblepoint_Standing)/dRs",
                 dict(T=T, api=api, gg=gg, Rs=r), got, d)
-        # --- assembly
-        if k % 3 == 0:
+        # --- assembly (k % 3 == 0: at / above the bubble point; k % 3 == 1: just below it and anywhere below)
+        if k % 3 in (0, 1):
             tpc, ppc = float(rng.uniform(-110, -40)), float(rng.uniform(600, 700))
             tr = (T + 459.67) / (tpc + 459.67)
             if 1.05 <= tr <= 3 and p / ppc <= 30 and p > 0:
@@ -159,6 +159,20 @@ def impl_checks(ctx):
                 if not dom.relclose(got, want, 1e-9):
                     bad("oil_compressibility_Standing is not its defining combination",
                         dict(T=T, p=p, api=api, gg=gg, Rsi=rsi, Tpc=tpc, Ppc=ppc, pb=pb), got, want)
+                # a sensitivity sweep over ONE argument of the gas description at a time (pseudocritical temperature, then pressure,
+                # everything else as in the call just made): each call is the defining combination for ITS arguments
+                if p < pb:
+                    for tpc2, ppc2 in ((tpc - 15.0, ppc), (tpc, ppc + 25.0), (tpc + 9.0, ppc)):
+                        if not (1.05 <= (T + 459.67) / (tpc2 + 459.67) <= 3 and p / ppc2 <= 30):
+                            continue
+                        got2 = float(oil.oil_compressibility_Standing(T, p, api, gg, rsi, tpc2, ppc2))
+                        bg2 = gas.b_factor_DAK(T, p, tpc2, ppc2, 60, 14.7)
+                        want2 = float((bg2 - oil.db_o_dgor_Standing(T, api, gg, rs)) * oil.dgor_dpressure_Standing(T, p, api, gg, rsi) / oil.b_o_bubblepoint_Standing(T, api, gg, rsi))
+                        ev += 1
+                        if not dom.relclose(got2, want2, 1e-9):
+                            bad("oil_compressibility_Standing is not its defining combination when only the pseudocritical point differs from the call made just before",
+                                dict(T=T, p=p, api=api, gg=gg, Rsi=rsi, Tpc=tpc2, Ppc=ppc2, pb=pb, called_just_before_with=dict(Tpc=tpc, Ppc=ppc)), got2, want2)
+                            break
         if k < 4:
             samples.append(dict(T=T, p=p, api=api, gg=gg, Rsi=rsi, pb=pb, dgor=got))
     # --- assembly, saturated branch, where its factor (B_g - dB_o/dR_s) is smallest (it changes sign for heavy oils with
